@@ -23,16 +23,16 @@ import (
 )
 
 type rtEvent struct {
-	Ev     string `json:"ev"` // identify protoupd lookup cancelled-lookup refresh advance health close-refresh
-	Peer   int    `json:"peer,omitempty"`
-	Proto  bool   `json:"proto,omitempty"` // identify/protoupd: the peer advertises the DHT protocol
-	Conn   bool   `json:"conn,omitempty"`
-	Key    int    `json:"key,omitempty"`
-	Force  bool   `json:"force,omitempty"`
-	Dial   string `json:"dial,omitempty"` // health: "" ok | fail
-	Req    string `json:"req,omitempty"`  // health: "" ok | fail | silent
-	Ms     int    `json:"ms,omitempty"`
-	Min    int    `json:"min,omitempty"`
+	Ev    string `json:"ev"` // identify protoupd lookup cancelled-lookup refresh advance health close-refresh
+	Peer  int    `json:"peer,omitempty"`
+	Proto bool   `json:"proto,omitempty"` // identify/protoupd: the peer advertises the DHT protocol
+	Conn  bool   `json:"conn,omitempty"`
+	Key   int    `json:"key,omitempty"`
+	Force bool   `json:"force,omitempty"`
+	Dial  string `json:"dial,omitempty"` // health: "" ok | fail
+	Req   string `json:"req,omitempty"`  // health: "" ok | fail | silent
+	Ms    int    `json:"ms,omitempty"`
+	Min   int    `json:"min,omitempty"`
 }
 
 type rtSc struct {
